@@ -652,8 +652,9 @@ def translator_tie(ctx: "Ctx") -> None:
     """Regenerate Gallina definitions from the current Python source and have Coq prove them equal to the model for all
     arguments.  A broken obligation (untranslatable source, or the equality no longer provable) is reported as a
     violation ending in no-failing-input-found unless the correspondence of this run already produced a failing input."""
-    from . import translate, translate2, translate3, translate4, translate5
-    modules = [translate, translate2, translate3, translate4, translate5]
+    import importlib
+    from . import translate
+    modules = [importlib.import_module(f"harness.{f.stem}") for f in sorted((VERIF / "harness").glob("translate*.py"))]
     pieces = TRANSLATOR_TIE.get(ctx.pid, [])
     if not pieces:
         return
